@@ -34,6 +34,9 @@
 (*     (host_node.py:156) "if the target IP address matches the NIC's IP   *)
 (*     address ... sends an ARP reply back"; RouterARP._process_arp_request*)
 (*     (router.py:885); docs router.rst:37.                                *)
+(*     A reply names the (address, MAC) pair of the interface that owns    *)
+(*     the requested address AND heard the request, once per request; it   *)
+(*     may leave a router through another interface towards the asker.     *)
 (*  OwnerAnswers (positive half, checked when a call returns): same        *)
 (*     sources + router.rst:37,39 "Responds to ARP requests ...",          *)
 (*     "Generates and processes ICMP packets".                             *)
